@@ -118,6 +118,36 @@ func (j *c03Judge) judge(op *world.Op, res *world.Result, preCluster map[string]
 	}
 	// 1. the operation returns an error
 	if res.Err == nil {
+		// one root cause whatever the operation: kube update only logs a failing GET / DELETE of a STALE object (one the
+		// old manifest names and the new one does not)
+		var newSpec *world.ChartSpec
+		switch op.Kind {
+		case "install", "upgrade":
+			newSpec = &op.Chart
+		case "rollback":
+			tv := op.Target
+			if tv == 0 {
+				tv = maxRev(pre) - 1
+			}
+			if sp, ok := j.specOf[tv]; ok {
+				newSpec = &sp
+			}
+		}
+		if newSpec != nil && (phase == "resource-GET" || phase == "resource-DELETE") {
+			inNew := false
+			for _, e := range res.Events {
+				if e.Injected {
+					for _, r := range newSpec.Resources {
+						if r.Path() == e.Key {
+							inNew = true
+						}
+					}
+				}
+			}
+			if !inNew {
+				return j.fail("C03:fault-but-operation-reported-success/stale-object-"+strings.TrimPrefix(phase, "resource-"), hs)
+			}
+		}
 		return j.fail("C03:fault-but-operation-reported-success/"+ctx, hs)
 	}
 	preSet, postSet := revSet(pre), revSet(post)
@@ -180,7 +210,9 @@ func (j *c03Judge) judge(op *world.Op, res *world.Result, preCluster map[string]
 				last = v
 			}
 		}
-		if last > 0 {
+		if j.everUninstalled {
+			evid.Note("C03:not-judged/atomic-restore-after-uninstall-with-kept-history")
+		} else if last > 0 {
 			if _, still := preSet[last]; still {
 				top := post[len(post)-1]
 				if (top.Status != "deployed" || len(created) < 2) && atomicAbortRe.MatchString(res.Err.Error()) {
@@ -191,6 +223,13 @@ func (j *c03Judge) judge(op *world.Op, res *world.Result, preCluster map[string]
 					return j.fail("C03:atomic-upgrade-did-not-end-with-a-new-deployed-revision/"+ctx, fmt.Sprintf("%s err=%.200v", hs, res.Err))
 				}
 				if top.Manifest != j.everDep[last] {
+					// root cause seen so far: a failing rollback marks the (failed, never deployed) last revision superseded,
+					// and --atomic then returns to the highest superseded-or-deployed revision
+					for _, r := range pre {
+						if _, dep := j.everDep[r.Version]; !dep && r.Status == "superseded" && r.Manifest == top.Manifest {
+							return j.fail("C03:atomic-upgrade-restored-a-superseded-revision-that-was-never-deployed/upgrade-atomic", fmt.Sprintf("restored the manifest of revision %d; %s", r.Version, hs))
+						}
+					}
 					return j.fail("C03:atomic-upgrade-restored-wrong-manifest/"+ctx, fmt.Sprintf("restored manifest is not that of revision %d (the most recent revision that had been deployed); %s", last, hs))
 				}
 				if spec, ok := j.specOf[last]; ok {
@@ -219,6 +258,9 @@ func (j *c03Judge) judge(op *world.Op, res *world.Result, preCluster map[string]
 			return j.fail("C03:atomic-install-left-history/"+ctx, hs)
 		}
 		for _, r := range op.Chart.Resources {
+			if _, existed := preCluster[r.Path()]; existed {
+				continue // an orphan of an earlier failed release, not created by this install
+			}
 			if j.w.Cluster.Get(r.Path()) != nil {
 				return j.fail("C03:atomic-install-left-resource/"+ctx, r.Key()+" still exists; "+hs)
 			}
